@@ -56,13 +56,10 @@ def main():
     }
     out = os.path.join(ROOT, "MANIFEST.json")
     json.dump(man, open(out, "w"), indent=1)
-    try:
-        sys.path.insert(0, "/opt/veriftools/pyvenv/lib/python3.11/site-packages")
-        import jsonschema
-        jsonschema.validate(man, json.load(open("/root/.vp/MANIFEST.schema.json")))
-        print("MANIFEST.json valid:", len(checks), "checks,", len(na), "not applicable")
-    except ImportError:
-        print("MANIFEST.json written (jsonschema not importable here; not validated)")
+    import subprocess
+    code = ("import json, jsonschema; jsonschema.validate(json.load(open('%s')), json.load(open('/root/.vp/MANIFEST.schema.json'))); print('schema ok')" % out)
+    r = subprocess.run(["python3-vt", "-c", code], capture_output=True, text=True)
+    print("MANIFEST.json:", len(checks), "checks,", len(na), "not applicable;", (r.stdout.strip() or r.stderr.strip()[-300:]))
 
 
 if __name__ == "__main__":
